@@ -38,9 +38,10 @@ def container_program(rng):
         ["1", "2.5", "\"a\"", "true", "0.5", "\"b\"", "3", "false", "-1.25", "byte(7)", "byte(3)", "nil"][:11],
         ["\"b\"", "\"a\"", "\"zz\"", "\"\"", "\"é\"", "\"k\""],
         ["1", "1.0", "2", "2.0", "0.5", "3", "true", "byte(1)", "byte(2)"],
+        ["math.sqrt(-1)", "1.0", "2.0", "3.0", "math.inf()", "-math.inf()", "0.0", "-0.0", "math.sqrt(-4)", "1"],
     ])
     sitems = ", ".join(r.choice(pool) for _ in range(2 + r.below(6)))
-    lines = ["func t(x) { print(\"t\", x); return x }", "m := {%s}" % items, "s := {%s}" % sitems, "out := []"]
+    lines = ["import math", "func t(x) { print(\"t\", x); return x }", "m := {%s}" % items, "s := {%s}" % sitems, "out := []"]
     ops = ["print(m)", "print(s)", "out.append(string(m))", "out.append(string(s))", "for k, v := range m { out.append(k) }",
            "for x := range s { out.append(x) }", "out.append(keys(m))", "out.append(try(func() { return sorted(s) }, \"unsortable\"))", "out.append(list(s))",
            "for k := range m { print(k) }", "m2 := {\"q\": 0}\nm2.update(m)\nout.append(m2)", "out.append(m.keys())", "out.append(m.values())",
@@ -49,6 +50,8 @@ def container_program(rng):
            "out.append(set(list(s)))", "out.append(string(list(s)))", "out.append(m == {%s})" % items, "out.append(s == {%s})" % sitems,
            "out.append(any(m))", "out.append(all(s))", "import os\nout.append(os.environ())", "out.append(encode(m, \"json\"))",
            "out.append(hash(string(m)))", "func f(a, b=1, c=\"x\") { return [a, b, c] }\nout.append(f(1))",
+           "func g(a=[1], b={2}, c=t, d=-1) { return a }",        # several unsupported defaults: one compile error, always the same
+           "out.append(func(a=1, b=[2], c={\"k\": 3}) { return a }())",
            "out.append(type(m))", "out.append('{m}')", "for i, x := range list(s) { out.append([i, x]) }"]
     for _ in range(3 + r.below(6)):
         lines.append(r.choice(ops))
